@@ -46,6 +46,10 @@ def obligations(tier):
                    bounds="21 junk additions (no type, no id, junk modified, non-objects, nested lists, bundles of junk) x store / sink / environment / source constructor x allow_custom x empty or preloaded store; state compared before/after and still printable"))
     obls.append(CH("versioning_refusals_are_library_errors", H, "versioning_refusals", t, mode="E1s", functions=["stix2.versioning.new_version", "stix2.versioning.revoke"],
                    bounds="23 change sets of every JSON kind naming present and absent properties (unmodifiable ones, modified, custom_properties, flags) x object / dictionary x 2.1 / 2.0 x new_version / revoke"))
+    obls.append(CH("paired_faults_in_own_constructors", H, "paired_faults", t * 2, mode="E1s", functions=F + ["stix2.v21.common.MarkingDefinition.__init__", "stix2.v21.sro.Relationship.__init__"],
+                   bounds="classes with constructor / constraint logic of their own (marking definitions, relationships, sightings, indicators, bundles, observed-data, ...) x every ordered pair of up to 8 slots: the first removed or kept, the second removed or one of 9 JSON kinds x parse / constructor x allow_custom"))
+    obls.append(CH("reference_scopes_of_any_shape", H, "reference_scopes", t, mode="E1s", functions=["stix2.base._Observable._check_ref", "stix2.parsing.parse_observable"],
+                   bounds="18 values for the reference scope of a 2.0 observable (every JSON kind; entries that are type names, objects, dictionaries with / without / with a junk 'type', null) x parse_observable / constructor x 3 referring types"))
     obls.append(CH("plain_python_subclasses", H, "plain_subclass", t, mode="E1s", functions=F + ["stix2.v21.sro.Relationship._check_object_constraints", "stix2.v21.sro.Sighting._check_object_constraints"],
                    bounds="an empty Python subclass of every buildable registered class (both versions): builds from the base's arguments to the same text, and with each of 43 junk values "
                           "in one argument raises only from the family (no RecursionError from super() through self.__class__)"))
